@@ -22,7 +22,7 @@ func smokeScenario(seed uint64) *Scenario {
 			"web": {Launches: []simos.Script{{LifeMs: 3000, Exit: 1, Out: []simos.OutChunk{{AtMs: 100, Stream: 2, Data: "web up\n"}}}}},
 			"job": {Launches: []simos.Script{{LifeMs: 700, Exit: 0}}},
 		},
-		Clients:     []Client{{Name: "c1", Ops: []Op{{AtMs: 4000, Op: "states"}, {AtMs: 9000, Op: "stop", Arg: "web"}}}},
+		Clients:     []Client{{Name: "c1", Ops: []Op{{AtMs: 4000, Op: "log", Arg: "db", N: 100, M: 0}, {AtMs: 4000, Op: "log", Arg: "db", N: 1 << 20, M: 0}, {AtMs: 9000, Op: "stop", Arg: "web"}}}},
 		RunForMs:    30000,
 		EndShutdown: true, BoundMs: 60000,
 		Observe:  true,
@@ -38,6 +38,7 @@ func TestSmoke(t *testing.T) {
 		}
 	}
 	fmt.Printf("steps=%d decisions=%d wall=%.1fms hash=%x loadErr=%q bubbleErr=%q trouble=%q panics=%d\n", res.Out.Steps, res.Out.Decisions, res.WallMs, res.Hash, res.LoadErr, res.BubbleErr, res.Out.Trouble, len(res.Out.Panics))
+	fmt.Printf("FINAL LOGS: %v\n", res.FinalLogs)
 	for _, p := range res.Out.Panics {
 		fmt.Println(p.Task, p.Value, p.Stack)
 	}
